@@ -80,8 +80,13 @@ func (p *Parser) Parse(source string) (Node, error) {
 		tokenizer.ApplyWhitespaceControl()
 	}
 
-	// Return the tokenizer to the pool
-	ReleaseTokenizer(tokenizer)
+	// The token slice is backed by the tokenizer's own buffer: the tokenizer goes
+	// back to its pool (where the next user overwrites that buffer) only when the
+	// tokens have been parsed, and the buffer is not handed to any other pool
+	defer func() {
+		p.tokens = nil
+		ReleaseTokenizer(tokenizer)
+	}()
 
 	if err != nil {
 		return nil, fmt.Errorf("tokenization error: %w", err)
@@ -93,13 +98,8 @@ func (p *Parser) Parse(source string) (Node, error) {
 	// Parse tokens into nodes
 	nodes, err := p.parseOuterTemplate()
 	if err != nil {
-		// Clean up token slice on error
-		ReleaseTokenSlice(p.tokens)
 		return nil, fmt.Errorf("parsing error: %w", err)
 	}
-
-	// Clean up token slice after successful parsing
-	ReleaseTokenSlice(p.tokens)
 
 	linkMacros(nodes)
 
